@@ -848,7 +848,9 @@ Proof.
       rewrite O1, R1, V2, O5, O2, R3, R2, V1, W1, N2. cbn [is_file_exists is_not_exist negb andb orb].
       rewrite (perm_on_write_searchable _ _ _ G3), (perm_on_write_searchable _ _ _ F3).
       rewrite G1, F1, Hnd, N1. unfold may_delete. rewrite Hnd, Hgoc. cbn [negb andb orb].
-      replace (Nat.eqb oc op) with false by (symmetry; apply Nat.eqb_neq; exact Hne). cbn [orb negb andb].
+      assert (Hnep : Nat.eqb oc par = false).
+      { destruct (Nat.eqb_spec oc par) as [<-|]; [|reflexivity]. cbn [is_ancestor] in N1. rewrite Nat.eqb_refl in N1. discriminate N1. }
+      replace (Nat.eqb oc op) with false by (symmetry; apply Nat.eqb_neq; exact Hne). rewrite Hnep. cbn [orb negb andb].
       destruct (kperm (f_heap s) op 3 (v_user (sv_view sv))) eqn:Hpo; cbn [negb]; [|reflexivity].
       destruct (sticky_refuses (f_heap s) op oc (v_user (sv_view sv))); [reflexivity|].
       destruct (Nat.eqb_spec par op) as [->|Hnp]; cbn [negb andb].
